@@ -85,7 +85,7 @@ fn gvar_events(rng: &mut Rng, ev: &mut Vec<Value>, rep: &mut Report) {
     let mut ends1: Vec<i64> = vec![];
     let mut contours = vec![];
     for _ in 0..ncont {
-        let np = 1 + rng.below(6) as usize;
+        let np = 1 + rng.below(8) as usize;
         let mut pts = vec![];
         for _ in 0..np {
             let (x, y) = (rng.range(0, 20) * 10, rng.range(0, 20) * 10);
@@ -122,6 +122,24 @@ fn gvar_events(rng: &mut Rng, ev: &mut Vec<Value>, rep: &mut Report) {
         // exercised by the packed-delta events, the application check stays inside the representable range)
         let dxs: Vec<i64> = (0..npts + 4).map(|i| if i >= npts && i != npts + 1 { 0 } else { *rng.pick(&[0i64, 0, 1, 2, -3, 10, 127, -128, 128, -129, 300, -2000, 4000]) }).collect();
         let dys: Vec<i64> = (0..npts + 4).map(|i| if i >= npts { 0 } else { *rng.pick(&[0i64, 0, 0, 1, -1, 5, 200]) }).collect();
+        // points that move rigidly in runs, half of the runs not at all: the optimiser keeps pinned (0, 0) points
+        // between moving parts, stored in zero runs of sparse tuples
+        let (dxs, dys) = if rng.chance(1, 3) {
+            let (mut rx, mut ry) = (vec![0i64; npts + 4], vec![0i64; npts + 4]);
+            let mut p = 0;
+            while p < npts {
+                let len = 1 + rng.below(3) as usize;
+                let (dx, dy) = if rng.chance(1, 2) { (0, 0) } else { (*rng.pick(&[0i64, 10, -20, 40, 300]), *rng.pick(&[0i64, 0, 5, -15, 200])) };
+                for q in p..(p + len).min(npts) {
+                    rx[q] = dx;
+                    ry[q] = dy;
+                }
+                p += len;
+            }
+            (rx, ry)
+        } else {
+            (dxs, dys)
+        };
         // a master that does not move anything: every delta is optional
         let (dxs, dys) = if rng.chance(1, 5) { (vec![0i64; npts + 4], vec![0i64; npts + 4]) } else { (dxs, dys) };
         let Some((iev, out)) = iup_event(&xs, &ys, &dxs, &dys, &ends1, tol100, rep) else { return };
@@ -353,6 +371,35 @@ pub fn main(args: &[String]) {
                     }
                 }
                 gvar_events(&mut rng, &mut ev, &mut rep);
+                // smooth deltas (a scaled / stretched contour: no point is forced, the optimiser solves the circular
+                // problem on the doubled contour)
+                for _ in 0..3 {
+                    let np = 3 + rng.below(8) as usize;
+                    let (mut xs, mut ys) = (vec![], vec![]);
+                    for _ in 0..np {
+                        xs.push(rng.range(0, 40) * 10);
+                        ys.push(rng.range(0, 40) * 10);
+                    }
+                    let (kx, ky) = (*rng.pick(&[(1i64, 2i64), (1, 4), (-1, 3), (1, 10), (3, 10)]), *rng.pick(&[(0i64, 1i64), (1, 2), (1, 5), (-1, 4)]));
+                    let mut dxs: Vec<i64> = xs.iter().map(|x| x * kx.0 / kx.1).collect();
+                    let mut dys: Vec<i64> = ys.iter().map(|y| y * ky.0 / ky.1).collect();
+                    let mut ends1 = vec![np as i64];
+                    for (x, y) in [(0, 0), (500, 0), (0, 0), (0, 0)] {
+                        xs.push(x);
+                        ys.push(y);
+                        dxs.push(0);
+                        dys.push(0);
+                        ends1.push(xs.len() as i64);
+                    }
+                    let tol100 = *rng.pick(&[0i64, 51, 101]);
+                    rep.add("smooth_contours", 1);
+                    if let Some((e, out)) = iup_event(&xs, &ys, &dxs, &dys, &ends1, tol100, &mut rep) {
+                        if out.iter().any(|d| !d.required) {
+                            rep.add("smooth_contours_with_optional_deltas", 1);
+                        }
+                        ev.push(e);
+                    }
+                }
                 rep.distinct += 1;
             }
         }
